@@ -96,6 +96,38 @@ func vRun(r *engine.Run, mode string) int {
 			r.Sample(json.RawMessage(res.Data))
 		}
 	})
+	if mode == "c11" {
+		// the version names under concurrency: every interleaving (request level, engine/sched.go) of an opener
+		// with a committing writer / a merging open; what s3db_version() reports must reproduce what was seen
+		scen := c03Scenarios()
+		var sc []json.RawMessage
+		var names []string
+		for i, s := range scen {
+			if len(s.Progs) > 2 || (s.Tier != "" && !r.Thorough()) {
+				continue
+			}
+			if !r.Thorough() && i != 0 && i != 2 && i != 7 {
+				continue // quick: S1 (reader), S3 (merging open || reader, both retire orders), S9 (reader that refreshes)
+			}
+			orders := 1
+			if s.Retire {
+				orders = 2
+			}
+			for o := 0; o < orders; o++ {
+				sc = append(sc, engine.J(c03Case{Scen: i, Retire: o, Bound: -1, VersionOracle: true}))
+			}
+			names = append(names, s.Name)
+		}
+		r.Bounds["interleaving_scenarios"] = names
+		engine.Map("c03", sc, func(i int, c json.RawMessage, res *engine.Result) {
+			r.Add("c03", c, res)
+			if res.Data != nil {
+				var d map[string]interface{}
+				json.Unmarshal(res.Data, &d)
+				r.Sample(d)
+			}
+		})
+	}
 	return r.Vacuity(3, 100)
 }
 
